@@ -204,6 +204,18 @@ Example C08_exposed_nonvacuous :
   fst (fst (run_ops x [OpRead] (ex_world [0x81; 0x82; 0; 0; 0; 0; 0xC3; 0xA9]))) = [(ResMsg (ROk (MText [0xC3; 0xA9])), 2)].
 Proof. eexists. split; [reflexivity | vm_compute; reflexivity]. Qed.
 
+(* the checked_sub().unwrap() sites of utf8::Incomplete::try_complete_offsets and the copy in
+   Incomplete::new (model site_utf8_checked_sub) are unreachable in any history *)
+Theorem C08_no_utf8_unwrap_panic : forall (r : role) (part : bytes) (cfg : config) (x : ctx),
+  ctx_new r part cfg = Some x ->
+  forall (ops : list op) (w : world),
+  Forall (fun p => match fst p with
+                   | ResMsg res => res <> RPanic site_utf8_checked_sub
+                   | ResUnit res => res <> RPanic site_utf8_checked_sub
+                   | ResBool _ => True
+                   end) (fst (fst (run_ops x ops w))).
+Proof. intros r part cfg x Hx ops w. exact (run_ops_no_utf8_panic ops x w (ctx_new_wf _ _ _ _ Hx)). Qed.
+
 (* ---- finding: a Utf8 error does not discard the partial message ---------------------------------- *)
 (* The statement "every delivered text is the concatenation of the fragments received since the previous
    message" is FALSE if the caller keeps reading after Error::Utf8: the rejected fragment is dropped, the
@@ -237,4 +249,5 @@ Print Assumptions C08_fragmented_frames.
 Print Assumptions C08_exposed_read_message_frame.
 Print Assumptions C08_exposed_read.
 Print Assumptions C08_exposed.
+Print Assumptions C08_no_utf8_unwrap_panic.
 Print Assumptions C08_delivered_is_concat_after_error_refuted.
